@@ -129,6 +129,11 @@ def dev_tls_13_keys(secret_list, key_length, hash_fun: hashes.HashAlgorithm):
     client_handshake_iv = None
     server_handshake_key = None
     server_handshake_iv = None
+    # In case the key log is incomplete
+    client_application_key = None
+    client_application_iv = None
+    server_application_key = None
+    server_application_iv = None
 
     for secret in secret_list:
         if secret.label == "CLIENT_HANDSHAKE_TRAFFIC_SECRET":
